@@ -258,6 +258,12 @@ func (e *executor) buildQuery(params *storagebeacon.QueryParams) (string, []any)
 	}
 	if len(params.StartsAt) > 0 {
 		subQ := []string{}
+		argsBeforeStartsAt := len(args)
+		matchAll := false
+		for _, as := range params.StartsAt {
+			// A full wildcard among the entries matches every beacon: no constraint at all.
+			matchAll = matchAll || as.IsZero()
+		}
 		for _, as := range params.StartsAt {
 			switch {
 			case as.IsZero():
@@ -272,6 +278,9 @@ func (e *executor) buildQuery(params *storagebeacon.QueryParams) (string, []any)
 				subQ = append(subQ, "(StartIsd=? AND StartAs=?)")
 				args = append(args, as.ISD(), as.AS())
 			}
+		}
+		if matchAll {
+			subQ, args = nil, args[:argsBeforeStartsAt]
 		}
 		if len(subQ) > 0 {
 			where = append(where, fmt.Sprintf("(%s)", strings.Join(subQ, " OR ")))
